@@ -322,6 +322,13 @@ func (w *World) ProduceBlock(dtSec int, miss []int) {
 	}
 	w.pend = nil // clients re-read their sequence after every block (pipelining only spans one inter-block window)
 	w.Logf("h=%d apphash=%x txs=%d", h, h0, len(now))
+	{
+		th := sha256.New()
+		for _, tr := range w.LastBlockTxs {
+			fmt.Fprintf(th, "%d|%s|%x;", tr.Res.Code, eventsDigest(tr.Res.Events), tr.Res.Data)
+		}
+		w.Trail = append(w.Trail, fmt.Sprintf("h=%d app=%x begin=%s end=%s txs=%d:%x", h, h0, w.beginDigest, w.endDigest, len(w.LastBlockTxs), th.Sum(nil)[:8]))
+	}
 	w.St.SimSeconds += int64(dtSec)
 	for _, o := range w.activeOracles() {
 		o.AfterCommit(w)
